@@ -8,7 +8,7 @@ from .. import calg, jmodel as J
 from ..cskel import Skel
 from ..odemodel import FILE
 from ..pymodel import package
-from ..valueflow import Flow, as_map, lower, match, V, show, simp, subst, walk
+from ..valueflow import Flow, as_map, contains, lower, match, V, show, simp, subst, walk
 
 EXPLANATION = (
     "R1 (_prepare_renorm_content) the matrix term of (i, j) for species s is (c_si*c_sj*A_j)*ab[IDX_s]/A_s/Hnuclei and the factor of s is "
@@ -18,7 +18,12 @@ EXPLANATION = (
     "RenormAbundance multiplies ab[IDX_s] by the factor of the same position of zip(network.species, renorm.factor); R3 both Renorm drivers "
     "call InitRenorm, solve A r = ab_ref_ into a vector distinct from the stored reference, then RenormAbundance(r, ab); SetReferenceAbund "
     "normalises by the hydrogen entry; R4 every divisor `A` (mass number) is guarded for the species classes whose mass number is zero; R5 "
-    "Network.elements is exactly the atomic members of Network.species and both are handed to NetworkInfo from the same network.")
+    "Network.elements is exactly the atomic members of Network.species and both are handed to NetworkInfo from the same network; R2 (every "
+    "entry) InitRenorm assigns every matrix entry unconditionally, or the matrix it is handed is created zeroed by that very call of Renorm; "
+    "R7 nothing of the library that runs after the element replacement table was installed (Network, readers, template loader) drops "
+    "Species._replacement (no Species.reset(), no clearing store): the mass numbers the divisions use are looked up after replacement.  "
+    "Verdicts: a VIOLATION is raised only for a construct that was reconstructed completely and differs; a shape that is not read "
+    "(opaque helper, other arrangement of the statements) is UNRECOGNISED.")
 ASSUMPTIONS = [
     "with M_ij = sum_s c_si c_sj A_j ab_s/(A_s H) and ab'_s = ab_s sum_j c_sj A_j r_j / A_s the new element totals are H*(M r)_i: the paper argument of DESIGN C16",
     "conditioning / singularity of the matrix and finiteness for extreme abundances are not decided",
@@ -56,8 +61,9 @@ def _r5(ctx, pkg):
     ctx.saw(NF, "Network.elements")
     fl = Flow(fn, NF)
     rets = [f for f in fl.facts if f.kind == "return"]
-    ok = False
+    ok = sure = False
     found = "; ".join(show(simp(f.value))[:100] for f in rets)
+    SP = ("attr", ("param", "self"), "species")
     if len(rets) == 1:
         v = simp(rets[0].value)
         if v[0] == "call" and v[1] in (("global", "list"), ("global", "sorted")) and len(v[2]) == 1:
@@ -65,12 +71,18 @@ def _r5(ctx, pkg):
         m = as_map(v)
         if m:
             var, elt, src, conds = m[0], m[1], m[2], m[3]
-            ok = elt == var and src == ("attr", ("param", "self"), "species") and tuple(conds) == (("attr", var, "is_atom"),)
-    ctx.check(ok, "R5", "Network.elements = atoms of Network.species", (NF, fn.lineno),
-              "every atomic member of the species list (reacting or merely required) is an element" if ok else
-              "the element list is not `the atomic members of self.species`: an atomic species that is in the species list but not in the source used here "
-              "(e.g. a required species that takes part in no reaction) gets a factor `()` and no matrix row",
-              expected="[spec for spec in self.species if spec.is_atom]", found=found)
+            from ..valueflow import split_guard
+            conds = tuple(c if pol else ("unop", "Not", c) for c0 in conds for c, pol in split_guard((c0, True)))      # `if a and b` == `if a if b`
+            atom = ("attr", var, "is_atom")
+            ok = elt == var and src == SP and tuple(conds) == (atom,)
+            # understood and wrong: the atoms of another collection than self.species, or of self.species under a further test
+            sure = elt == var and _understood(src, *conds) and ((src == SP and atom in conds and len(conds) > 1) or
+                                                                  (not contains(src, lambda t: t == SP) and atom in conds))
+    _verdict(ctx, ok, sure, "R5", "Network.elements = atoms of Network.species", (NF, fn.lineno),
+             "every atomic member of the species list (reacting or merely required) is an element" if ok else
+             "the element list is not `the atomic members of self.species`: an atomic species that is in the species list but not in the source used here "
+             "(e.g. a required species that takes part in no reaction) gets a factor `()` and no matrix row",
+             expected="[spec for spec in self.species if spec.is_atom]", found=found)
     n = 0
     for f in pkg.files:
         if not f.endswith(".py") or f.startswith("naunet/examples/"):
@@ -100,10 +112,68 @@ def _r5(ctx, pkg):
                 e = c.args[0] if len(c.args) > 0 else args.get("elements")
                 sp = c.args[1] if len(c.args) > 1 else args.get("species")
                 e, sp = through_local(e, owner.get(id(c))), through_local(sp, owner.get(id(c)))
-                good = isinstance(e, ast.Attribute) and isinstance(sp, ast.Attribute) and e.attr == "elements" and sp.attr == "species" and ast.unparse(e.value) == ast.unparse(sp.value)
-                ctx.check(good, "R5", f"{f.rsplit('/', 1)[1]}:NetworkInfo(elements, species)", (f, c.lineno), "elements and species of the same network are handed to the generator",
-                          expected="NetworkInfo(network.elements, network.species, ...)", found=f"{ast.unparse(e) if e else None}, {ast.unparse(sp) if sp else None}")
+                attrs = isinstance(e, ast.Attribute) and isinstance(sp, ast.Attribute)
+                good = attrs and e.attr == "elements" and sp.attr == "species" and ast.unparse(e.value) == ast.unparse(sp.value)
+                # understood and wrong: two plain attributes that are not .elements / .species of one object; anything else (a call, a
+                # local bound more than once, ..) is not read here
+                _verdict(ctx, good, attrs, "R5", f"{f.rsplit('/', 1)[1]}:NetworkInfo(elements, species)", (f, c.lineno), "elements and species of the same network are handed to the generator",
+                         expected="NetworkInfo(network.elements, network.species, ...)", found=f"{ast.unparse(e) if e else None}, {ast.unparse(sp) if sp else None}")
     ctx.floor("R5", "NetworkInfo constructions", n, 2)
+
+
+_OPAQUE = {"unknown", "acc", "carried", "after", "lambda", "appended", "removeone"}
+_KNOWN_CALLS = {"next", "iter", "len", "str", "int", "float", "format", "zip", "enumerate", "list", "tuple"}
+_STR_METHODS = {"get", "format", "join", "replace", "strip", "lstrip", "rstrip", "removeprefix", "removesuffix", "lower", "upper", "split"}
+
+
+def _understood(*vals, lists=()) -> bool:
+    """is every value a closed expression over loop elements, attributes, constants, arithmetic and string operations of known meaning --
+    nothing the reconstruction gave up on (an opaque helper call, a value carried round a loop)?  Only such a value may be judged
+    WRONG; anything else that does not match is merely not recognised.  `lists`: names of accumulated lists that may appear as such."""
+    for v in vals:
+        for x in walk(v):
+            if not isinstance(x, tuple) or not x or not isinstance(x[0], str):
+                continue
+            if x[0] == "acc" and len(x) == 2 and x[1] in lists:
+                continue
+            if x[0] in _OPAQUE:
+                return False
+            if x[0] == "call" and not (x[1][0] == "global" and x[1][1] in _KNOWN_CALLS):
+                return False
+            if x[0] == "meth" and x[2] not in _STR_METHODS:
+                return False
+    return True
+
+
+def _verdict(ctx, ok, sure, rule, key, where, msg, expected=None, found=None):
+    """DISCHARGED when the construct has the required shape, VIOLATION when it is understood (`sure`) and differs, else UNRECOGNISED"""
+    if ok:
+        ctx.ok(rule, key, where, msg)
+    elif sure:
+        ctx.bad(rule, key, where, msg, expected, found)
+    else:
+        ctx.unrec(rule, key, where, f"not a shape this rule reads ({msg[:90]}...): {str(found)[:160]}")
+    return bool(ok)
+
+
+def _filtered_view(it, BASE):
+    """is `it` recognisably a view of BASE that drops, repeats or re-orders entries (a filtered comprehension, reversed / sorted / set /
+    a slice of it)?  -- positive evidence that a loop over it does not visit every entry once, in order"""
+    if it[0] == "call" and it[1] == ("global", "enumerate") and it[2]:
+        return _filtered_view(it[2][0], BASE)
+    if it[0] == "call" and it[1] == ("global", "zip") and it[2] and not it[3]:
+        return any(_filtered_view(a, BASE) for a in it[2])
+    if it[0] == "call" and it[1][0] == "global" and it[1][1] in ("reversed", "sorted", "set", "frozenset") and it[2]:
+        inner = it[2][0]
+        mm = as_map(inner) if inner[0] in ("comp", "copy", "attr", "param") else None
+        return bool(mm) and mm[2] == BASE
+    if it[0] == "sub" and it[2][0] == "slice":
+        mm = as_map(it[1]) if it[1][0] in ("comp", "copy", "attr", "param") else None
+        return bool(mm) and mm[2] == BASE
+    if it[0] == "filtered":
+        return it[1] == BASE
+    mm = as_map(it) if it[0] in ("comp", "copy") else None
+    return bool(mm) and mm[2] == BASE and bool(mm[3])
 
 
 def _over_elements(it, ELEMS):
@@ -153,10 +223,108 @@ def _acc_as_map(fl, name, outer, ELEMS):
 def check(ctx):
     pkg = package(ctx.tree)
     _r5(ctx, pkg)
+    _r1_r4(ctx, pkg)
+    # ------------------------------------------------------------ R2 templates
+    for label, rel, pat in (("cvode", CV_RENORM, r"IJth\s*\(\s*A\s*,\s*\x00(\d+)\x00\s*,\s*\x00(\d+)\x00\s*\)\s*=\s*\x00(\d+)\x00"),
+                            ("odeint", OD_RENORM, r"(?<![\w])A\s*\(\s*\x00(\d+)\x00\s*,\s*\x00(\d+)\x00\s*\)\s*=\s*\x00(\d+)\x00")):
+        _r2_template(ctx, label, rel, pat)
+    # ------------------------------------------------------------ R3 drivers
+    _r3(ctx)
+    # each rendering is computed from the network of that call: the renderer keeps no memo between two renderings (shared with C17.R7)
+    from .c17 import stateless_renderer
+    stateless_renderer(ctx, package(ctx.tree), "R6")
+    _r7_replacement_survives(ctx, pkg)
+
+
+def _r7_replacement_survives(ctx, pkg):
+    """The mass numbers the matrix and the factors divide by are looked up by element symbol AFTER the configured replacement
+    (`HE` -> `He`, `SI` -> `Si`): Species._replacement is installed once, by whoever sets the network up (the render command, a script),
+    BEFORE the network is built.  Nothing of the package that runs afterwards -- Network, the readers, the template loader -- may drop
+    that table: neither `Species.reset()` (which clears it together with the element lists) nor an assignment of an empty table /
+    `.clear()`.  With the table gone `HE`, `SI`, `MG` have mass number 0 and InitRenorm divides by 0.0."""
+    SP = "naunet/species.py"
+    n = 0
+    hits = []
+    unknown = []
+    for f in pkg.files:
+        if not f.startswith("naunet/") or f.startswith("naunet/examples/") or f.startswith("naunet/console/") or not f.endswith(".py"):
+            continue        # (the commands are the ones who install the table)
+        mod = pkg.modules[f]
+
+        def visit(node, qual, in_species):
+            nonlocal n
+            for ch in ast.iter_child_nodes(node):
+                if isinstance(ch, ast.ClassDef):
+                    visit(ch, ch.name, ch.name == "Species")
+                    continue
+                if isinstance(ch, (ast.FunctionDef, ast.AsyncFunctionDef)):
+                    q = f"{qual}.{ch.name}" if qual else ch.name
+                    if q == "Species.reset":
+                        continue            # the public reset itself: what it clears is its contract
+                    n += 1
+                    visit(ch, q, in_species)
+                    continue
+
+                def is_species(e):
+                    return (isinstance(e, ast.Name) and (e.id == "Species" or (in_species and e.id in ("cls", "self")))) or \
+                        (isinstance(e, ast.Call) and isinstance(e.func, ast.Name) and e.func.id == "type" and in_species)
+                if isinstance(ch, ast.Call) and isinstance(ch.func, ast.Attribute):
+                    if ch.func.attr == "reset" and is_species(ch.func.value):
+                        hits.append((f, ch.lineno, qual, "Species.reset()"))
+                    elif ch.func.attr in ("clear", "pop", "popitem") and isinstance(ch.func.value, ast.Attribute) and ch.func.value.attr == "_replacement" and is_species(ch.func.value.value):
+                        hits.append((f, ch.lineno, qual, f"Species._replacement.{ch.func.attr}()"))
+                if isinstance(ch, (ast.Assign, ast.AnnAssign)):
+                    for t in (ch.targets if isinstance(ch, ast.Assign) else [ch.target]):
+                        if isinstance(t, ast.Attribute) and t.attr == "_replacement" and is_species(t.value) and qual:
+                            v = ch.value
+                            if isinstance(v, ast.Dict) and not v.keys or (isinstance(v, ast.Call) and ast.unparse(v) == "dict()"):
+                                hits.append((f, ch.lineno, qual, "Species._replacement = {}"))
+                            else:
+                                unknown.append((f, ch.lineno, qual, ast.unparse(ch)[:80]))
+                visit(ch, qual, in_species)
+        visit(mod, "", False)
+    for f, ln, qual, what in hits:
+        ctx.bad("R7", f"{qual}: {what}", (f, ln), f"`{qual}` runs after the element replacement table was installed (it is part of building / rendering a network) and drops it with `{what}`: "
+                "upper-case symbols (`HE`, `SI`, `MG`) are no longer mapped to the periodic table, their mass number is 0, and the generated renormalisation divides by 0.0 / "
+                "solves a singular system", expected="only the element lists are re-installed (Species.set_known_elements / set_known_pseudoelements)", found=what)
+    for f, ln, qual, what in unknown:
+        ctx.unrec("R7", f"{qual}: stores Species._replacement", (f, ln), f"`{qual}` re-binds the replacement table (`{what}`): whether the configured table survives is not decided here")
+    if not hits and not unknown:
+        ctx.ok("R7", "replacement table survives", (SP, 0), f"none of the {n} functions of the library drops Species._replacement (no Species.reset(), no clearing store)")
+    ctx.floor("R7", "library functions scanned", n, 180)
+
+
+def _renorm_flow(pkg):
+    """(function, value reconstruction) of TemplateLoader._prepare_renorm_content, spelling differences removed"""
     # helpers the method may have been split into (one matrix entry, one factor, ...) are put back first
     fn = pkg.expanded("TemplateLoader", "_prepare_renorm_content")
+    # with the helpers back in place, loops by position (`for i in range(len(X))` / `range(n)` with n = len(X), reading X[i]) are the
+    # enumerate loops they abbreviate
+    import copy
+    from ..normalize import index_loops_to_enumerate
+    fn = index_loops_to_enumerate(copy.deepcopy(fn))
+
+    # small loop-free helpers the values pass through (a method of the class, a function of this module or one imported from another
+    # module of the package) are read as what they return
+    def _method(name):
+        return pkg.resolve("TemplateLoader", name)[1]
+
+    def _function(name):
+        if (FILE, name) in pkg.functions:
+            return pkg.functions[(FILE, name)]
+        mod, orig = pkg.imports.get(FILE, {}).get(name, (None, None))
+        if mod and orig and mod.startswith("."):
+            base = "naunet/" + mod.lstrip(".").replace(".", "/")
+            for f_ in (base + ".py", base + "/__init__.py"):
+                if (f_, orig) in pkg.functions:
+                    return pkg.functions[(f_, orig)]
+        return None
+    return fn, Flow(fn, FILE, resolver=_method, func_resolver=_function, inline_loops=True)
+
+
+def _r1_r4(ctx, pkg):
+    fn, fl = _renorm_flow(pkg)
     ctx.saw(FILE, "TemplateLoader._prepare_renorm_content")
-    fl = Flow(fn, FILE)
     NI = ("param", [a.arg for a in fn.args.args if a.arg != "self"][0])
     ELEMS = ("attr", NI, "elements")
     SPEC = ("attr", NI, "species")
@@ -178,45 +346,71 @@ def check(ctx):
         ctx.unrec("R1", "RenormContent(...)", W, "return RenormContent(factor, matrix) not recognised")
         return
     mats = [f for f in fl.facts if f.kind == "append" and f.target == mat_name]
+    # understood and wrong: the two lists handed over in each other's place -- the list given as `matrix` is filled once per species, the
+    # one given as `factor` once per element pair
+    fswap = [f for f in fl.facts if f.kind == "append" and f.target == fac_name]
+    if len(mats) in (1, 2) and all(len(f.loops) == 1 and _over_elements(simp(f.loops[0].iter), SPEC) for f in mats) \
+            and len(fswap) == 1 and len(fswap[0].loops) == 2 and all(_over_elements(simp(l.iter), ELEMS) for l in fswap[0].loops):
+        ctx.bad("R1", "RenormContent(...): fields", (FILE, ret[0].line), f"RenormContent receives the per-species list `{mat_name}` as `matrix` and the element x element list `{fac_name}` as `factor`",
+                expected="RenormContent(factor=<one entry per species>, matrix=<one entry per element pair>)", found=show(ret[0].value)[:120])
+        return
     if len(mats) != 1 or len(mats[0].loops) != 2:
-        ctx.bad("R1", "matrix:fill", W, f"expected one append to `{mat_name}` inside the element x element loops, found {[(f.line, len(f.loops)) for f in mats]}")
+        # the arrangement of the statements is not the one read below: nothing is known about the entries themselves
+        ctx.unrec("R1", "matrix:fill", W, f"expected one append to `{mat_name}` inside the element x element loops, found {[(f.line, len(f.loops)) for f in mats]}")
         return
     mf = mats[0]
     Li, Lj = mf.loops
-    ok_loops = all(simp(l.iter) == ("call", ("global", "enumerate"), (("comp", "list", None, None),), ()) or True for l in (Li, Lj))
     its = [simp(l.iter) for l in (Li, Lj)]
     en = [_over_elements(it, ELEMS) for it in its]
-    ctx.check(all(en), "R1", "matrix:loops", (FILE, mf.line), "matrix entries are appended row-major over the elements x the elements (every element once, in the order of netinfo.elements: "
-              "a plain / enumerate / zip loop over the element list or one-to-one views of it such as the element names)",
-              found="; ".join(show(i)[:80] for i in its))
+    _verdict(ctx, all(en), any(_filtered_view(it, ELEMS) for it in its), "R1", "matrix:loops", (FILE, mf.line),
+             "matrix entries are appended row-major over the elements x the elements (every element once, in the order of netinfo.elements: "
+             "a plain / enumerate / zip loop over the element list or one-to-one views of it such as the element names)",
+             found="; ".join(show(i)[:80] for i in its))
+    if not all(en):
+        return
     ei, ej = ("elem", ELEMS, Li.id), ("elem", ELEMS, Lj.id)
     v = simp(mf.value)
     b = match(("join", ("const", " + "), ("acc", V("t"))), v)
-    ctx.check(bool(b) and not mf.guards, "R1", "matrix:sum", (FILE, mf.line), "entry (i, j) is the ' + '-joined list of its terms", found=show(v)[:80])
-    tname = b["t"] if b else "terms"
+    # understood and wrong: entries appended under a condition (positions shift), or joined with another separator
+    # ... or the sum is reworked afterwards by string operations (text substitution on a generated expression, a wrapper)
+    accs = {x[1] for x in walk(v) if isinstance(x, tuple) and len(x) == 2 and x[0] == "acc"}
+    _verdict(ctx, bool(b) and not mf.guards, bool(b and mf.guards) or (not b and len(accs) == 1 and _understood(v, lists=accs)), "R1", "matrix:sum", (FILE, mf.line),
+             "entry (i, j) is the ' + '-joined list of its terms, appended unconditionally", expected="' + '.join(terms)",
+             found=show(v)[:160] + (f" under {len(mf.guards)} guard(s)" if mf.guards else ""))
+    if not b and len(accs) != 1:
+        return
+    tname = b["t"] if b else next(iter(accs))
     tin = [f for f in fl.facts if f.kind == "init" and f.target == tname]
-    ctx.check(len(tin) == 1 and tin[0].value == ("list", (("const", "0.0"),)) and tuple(l.id for l in tin[0].loops) == (Li.id, Lj.id), "R1", "matrix:terms-init", (FILE, tin[0].line if tin else mf.line),
-              "the term list is re-created as ['0.0'] for every (i, j)", found="; ".join(show(f.value) + f" in {len(f.loops)} loops" for f in tin))
+    in_ij = len(tin) == 1 and tuple(l.id for l in tin[0].loops) == (Li.id, Lj.id)
+    zero = len(tin) == 1 and tin[0].value[0] == "list" and len(tin[0].value[1]) == 1 and tin[0].value[1][0][0] == "const" and str(tin[0].value[1][0][1]).strip() in ("0.0", "0", "0.", "0.0e0")
+    # understood and wrong: one list shared by several entries (created outside the (i, j) loops), or an entry that starts empty (an
+    # element pair no species couples would print nothing)
+    _verdict(ctx, in_ij and zero and not tin[0].guards, len(tin) == 1 and tin[0].value[0] == "list" and ((not in_ij and len(tin[0].loops) < 2) or (in_ij and not tin[0].value[1])),
+             "R1", "matrix:terms-init", (FILE, tin[0].line if tin else mf.line),
+             "the term list is re-created as ['0.0'] for every (i, j)", found="; ".join(show(f.value) + f" in {len(f.loops)} loops" for f in tin))
     tap = [f for f in fl.facts if f.kind == "append" and f.target == tname]
     if len(tap) != 1 or len(tap[0].loops) != 3:
-        ctx.bad("R1", "matrix:term-site", W, f"expected one term append inside the species loop, found {[(f.line, len(f.loops)) for f in tap]}")
+        ctx.unrec("R1", "matrix:term-site", W, f"expected one term append inside the species loop, found {[(f.line, len(f.loops)) for f in tap]}")
         return
     tf = tap[0]
     Ls = tf.loops[2]
-    b = match(("call", ("global", "enumerate"), (V("s"),), ()), simp(Ls.iter))
-    sp_ok = (b and b["s"] == SPEC) or simp(Ls.iter) == SPEC
-    ctx.check(bool(sp_ok), "R1", "matrix:species-loop", (FILE, Ls.line), "terms are collected over the unfiltered species list", found=show(simp(Ls.iter))[:80])
+    sit = simp(Ls.iter)
+    sp_ok = _over_elements(sit, SPEC)
+    _verdict(ctx, sp_ok, _filtered_view(sit, SPEC), "R1", "matrix:species-loop", (FILE, Ls.line), "terms are collected over the unfiltered species list", found=show(sit)[:80])
+    if not sp_ok:
+        return
     s = ("elem", SPEC, Ls.id)
     ci, cj = COUNT(s, ei), COUNT(s, ej)
     Aj = ("attr", ej, "A")
     lw = lower(tf.value)
     term_ok = False
     detail = lw.text
-    coeff_factors = None
+    hv = {k: (x[1] if x[0] == "fmt" else x) for k, x in lw.holes.items()}
+    # the text is judged only when every piece of it was reconstructed (no opaque helper, no list pasted in as a whole)
+    sure = _understood(*hv.values()) and not lw.seqs
     try:
         e = calg.parse(lw.text)
         num, den = calg.split_factors(e)
-        hv = {k: (x[1] if x[0] == "fmt" else x) for k, x in lw.holes.items()}
         numh = [n for n in num if n[0] == "id" and n[1] in hv]
         ab = [n for n in num if n[0] == "index" and n[1] == ("id", "ab")]
         others = [n for n in num if n not in numh and n not in ab]
@@ -234,14 +428,15 @@ def check(ctx):
             detail = f"coefficient factors {[show(x) for x in flat_mult(hv[numh[0][1]])]}, ab index {idx}->{show(hv.get(m2.group(1))) if m2 else '?'}, divisor {show(hv[denh[0][1]])}"
     except calg.CParseError as ex:
         detail = f"{lw.text!r}: {ex}"
-    ctx.check(term_ok, "R1", "matrix:term", (FILE, tf.line),
-              "term = (c_si * c_sj * A_j) * ab[IDX_<alias of s>] / A_s / Hnuclei with c from the row/column element names and A_j from the column element",
-              expected="(ci*cj*elements[j].A) * ab[IDX_{spec.alias}] / {spec.A} / Hnuclei", found=detail[:300])
+        sure = False
+    _verdict(ctx, term_ok, sure, "R1", "matrix:term", (FILE, tf.line),
+             "term = (c_si * c_sj * A_j) * ab[IDX_<alias of s>] / A_s / Hnuclei with c from the row/column element names and A_j from the column element",
+             expected="(ci*cj*elements[j].A) * ab[IDX_{spec.alias}] / {spec.A} / Hnuclei", found=detail[:300])
     g = [(simp(c), p) for c, p in tf.guards]
     # guards arrive as atomic conditions in positive form (valueflow.split_guard): {not electron, ci, cj} in any spelling
     g_ok = {(repr(c), p) for c, p in g} == {(repr(("attr", s, "is_electron")), False), (repr(ci), True), (repr(cj), True)}
-    ctx.check(g_ok, "R1", "matrix:term-guard", (FILE, tf.line), "a term exists iff the species is not the electron and contains both elements",
-              expected="not spec.is_electron and ci and cj", found="; ".join(show(c)[:160] for c, _ in g))
+    _verdict(ctx, g_ok, _understood(*[c for c, _ in g]), "R1", "matrix:term-guard", (FILE, tf.line), "a term exists iff the species is not the electron and contains both elements",
+             expected="not spec.is_electron and ci and cj", found="; ".join(("" if p_ else "not ") + show(c)[:160] for c, p_ in g))
 
     # ------------------------------------------------------------ R1 factor
     facs = [f for f in fl.facts if f.kind == "append" and f.target == fac_name]
@@ -256,33 +451,52 @@ def check(ctx):
     elif len(facs) == 1:
         fguards = facs[0].guards
     if len(facs) != 1 or len(facs[0].loops) != 1:
-        ctx.bad("R1", "factor:site", W, f"expected one append to `{fac_name}` in the species loop, found {[(f.line, len(f.loops)) for f in facs]}")
+        ctx.unrec("R1", "factor:site", W, f"expected one append to `{fac_name}` in the species loop, found {[(f.line, len(f.loops)) for f in facs]}")
         return
     ff = facs[0]
     Lf = ff.loops[0]
-    ctx.check(simp(Lf.iter) == SPEC and not fguards, "R1", "factor:species-loop", (FILE, ff.line),
-              "one factor per species, in the order of the unfiltered species list (the order RenormAbundance zips with)", found=show(simp(Lf.iter))[:80])
+    fit = simp(Lf.iter)
+    f_ok = _over_elements(fit, SPEC)
+    # understood and wrong: a species left without a slot (a filtered pass, or the append under a condition) -- RenormAbundance pairs
+    # factor n with species n
+    _verdict(ctx, f_ok and not fguards, _filtered_view(fit, SPEC) or (f_ok and bool(fguards)), "R1", "factor:species-loop", (FILE, ff.line),
+             "one factor per species, in the order of the unfiltered species list (the order RenormAbundance zips with)",
+             found=show(fit)[:80] + (f" under {len(fguards)} guard(s)" if fguards else ""))
+    if not f_ok:
+        return
     s2 = ("elem", SPEC, Lf.id)
     v = simp(fvalue if fvalue is not None else ff.value)
-    b = match(("ifexp", ("attr", s2, "is_electron"), V("one"), ("join", ("const", " + "), V("seq"))), v)
-    ctx.check(bool(b) and b["one"] in (("const", 1.0), ("const", "1.0"), ("const", 1)), "R1", "factor:electron", (FILE, ff.line),
-              "the electron's factor is 1.0 (left untouched)", found=show(v)[:100])
+    bE = match(("ifexp", ("attr", s2, "is_electron"), V("one"), V("rest")), v)
+    e_ok = bool(bE) and bE["one"] in (("const", 1.0), ("const", "1.0"), ("const", 1))
+    # understood and wrong: no special case for the electron at all (the plain sum for every species), or another constant for it
+    e_sure = bool(match(("join", ("const", " + "), V("seq")), v)) or (bool(bE) and bE["one"][0] == "const")
+    _verdict(ctx, e_ok, e_sure, "R1", "factor:electron", (FILE, ff.line), "the electron's factor is 1.0 (left untouched)", found=show(v)[:100])
+    rest = bE["rest"] if bE else v
+    b = match(("join", ("const", " + "), V("seq")), rest)
+    # understood and wrong: the sum is reworked afterwards (clamped, wrapped in a call, edited as text): the species is no longer scaled
+    # by the coefficient the matrix was built for
+    accs = {x[1] for x in walk(rest) if isinstance(x, tuple) and len(x) == 2 and x[0] == "acc"}
+    _verdict(ctx, bool(b), not b and _understood(rest, lists=accs), "R1", "factor:sum", (FILE, ff.line), "the factor of a species is the plain ' + '-joined sum of its contributions",
+             expected="' + '.join(contributions)", found=show(rest)[:200])
     if b:
         # the list of contributions: a comprehension, or a list filled by a loop over the elements
         mm = _acc_as_map(fl, b["seq"][1], (Lf,), ELEMS) if b["seq"][0] == "acc" else as_map(b["seq"])
         okf = False
+        suref = False
         detail = show(b["seq"])[:200]
         if mm:
             bv, body, base, ifs = mm
             cj2 = COUNT(s2, bv)
             lw = lower(body)
+            hv = {k: (x[1] if x[0] == "fmt" else x) for k, x in lw.holes.items()}
+            suref = _understood(*hv.values(), *ifs) and not lw.seqs and base == ELEMS
             try:
                 e = calg.parse(lw.text)
                 num, den = calg.split_factors(e)
-                hv = {k: (x[1] if x[0] == "fmt" else x) for k, x in lw.holes.items()}
                 numh = [n for n in num if n[0] == "id" and n[1] in hv]
                 rp = [n for n in num if n[0] == "index" and n[1] == ("id", "rptr")]
                 denh = [d for d in den if d[0] == "id" and d[1] in hv]
+                detail = f"over {show(base)}: {lw.text!r} with {[show(x)[:60] for x in hv.values()]}, filter {[show(c) for c in ifs]}"
                 if len(numh) == 1 and len(rp) == 1 and len(num) == 2 and len(den) == 1 and len(denh) == 1:
                     cf = sorted(map(repr, flat_mult(hv[numh[0][1]])))
                     idx = calg.unparse(rp[0][2])
@@ -292,16 +506,17 @@ def check(ctx):
                     detail = f"over {show(base)}: coefficient {[show(x) for x in flat_mult(hv[numh[0][1]])]}, rptr index {idx}->{show(hv.get(m2.group(1))) if m2 else '?'}, divisor {show(hv[denh[0][1]])}, filter {[show(c) for c in ifs]}"
             except calg.CParseError as ex:
                 detail = f"{lw.text!r}: {ex}"
-        ctx.check(okf, "R1", "factor:term", (FILE, ff.line),
-                  "factor of s = sum over elements j contained in s of (c_sj * A_j) * rptr[IDX_ELEM_j] / A_s -- the coefficient c_sj*A_j/A_s of the matrix term",
-                  expected="f'{c * elem.A} * rptr[IDX_ELEM_{ename}] / {spec.A}' for the elements with c != 0", found=detail[:300])
+                suref = False
+        _verdict(ctx, okf, suref, "R1", "factor:term", (FILE, ff.line),
+                 "factor of s = sum over elements j contained in s of (c_sj * A_j) * rptr[IDX_ELEM_j] / A_s -- the coefficient c_sj*A_j/A_s of the matrix term",
+                 expected="f'{c * elem.A} * rptr[IDX_ELEM_{ename}] / {spec.A}' for the elements with c != 0", found=detail[:300])
 
     # ------------------------------------------------------------ R4 divisors
     # contradiction rule: mass number 0 is believed possible (electrons are guarded) -- grains also have A = 0
     for label, fact, spec, guards in (("matrix", tf, s, g), ("factor", ff, s2, None)):
         lw = lower(fact.value if label == "matrix" else (b["seq"] if b else fact.value))
         txt = show(simp(fact.value))
-        e_guard = ("is_electron" in " ".join(show(c) for c, _ in (guards or []))) if label == "matrix" else (bool(b))
+        e_guard = ("is_electron" in " ".join(show(c) for c, _ in (guards or []))) if label == "matrix" else e_ok
         gr_guard = "is_grain" in txt or "is_grain" in " ".join(show(c) for c, _ in (fact.guards or []))
         nz_guard = any(show(c).endswith(".A") or ".A and" in show(c) or "massnumber" in show(c) for c, _ in fact.guards)
         ctx.check(e_guard and (gr_guard or nz_guard), "R4", f"{label}:divisor spec.A", (FILE, fact.line),
@@ -309,16 +524,6 @@ def check(ctx):
                   "a network carrying GRAIN0/GRAIN- emits `0.0 * ab[..] / 0.0` (NaN)" if not (gr_guard or nz_guard) else
                   "every species class with mass number 0 is kept away from the division",
                   expected="guard for every species with A == 0 (electron and grain)", found="guards: is_electron only")
-
-    # ------------------------------------------------------------ R2 templates
-    for label, rel, pat in (("cvode", CV_RENORM, r"IJth\s*\(\s*A\s*,\s*\x00(\d+)\x00\s*,\s*\x00(\d+)\x00\s*\)\s*=\s*\x00(\d+)\x00"),
-                            ("odeint", OD_RENORM, r"(?<![\w])A\s*\(\s*\x00(\d+)\x00\s*,\s*\x00(\d+)\x00\s*\)\s*=\s*\x00(\d+)\x00")):
-        _r2_template(ctx, label, rel, pat)
-    # ------------------------------------------------------------ R3 drivers
-    _r3(ctx)
-    # each rendering is computed from the network of that call: the renderer keeps no memo between two renderings (shared with C17.R7)
-    from .c17 import stateless_renderer
-    stateless_renderer(ctx, package(ctx.tree), "R6")
 
 
 def _resolve(e, sets):
@@ -365,6 +570,30 @@ def _norm(e):
     return _arith(J.canon(e))
 
 
+_T_FILTERS = {"list", "map", "int", "length", "prefix", "suffix", "first", "last", "batch", "stmwrap", "attribute", "round", "abs", "string", "trim",
+              "rejectattr", "selectattr", "reject", "select", "reverse", "sort", "unique", "slice"}      # (the last row: filters that drop / re-order entries)
+
+
+def _tunderstood(*es) -> bool:
+    """is every template expression built from the renderer's own variables (network, renorm, the loop counters), constants, arithmetic
+    and filters of known meaning only?  Only such an expression may be judged WRONG; one that goes through a macro call, a namespace, a
+    variable of unknown origin or an unknown filter is merely not recognised."""
+    def rec(e):
+        if not isinstance(e, tuple) or not e or not isinstance(e[0], str):
+            return True
+        k = e[0]
+        if k == "name":
+            return e[1] in ("network", "renorm", "zip") or e[1].startswith("loop@")
+        if k == "call":
+            return e[1] == ("name", "zip") and all(rec(a) for a in e[2]) and not e[3]
+        if k == "filter":
+            return e[1] in _T_FILTERS and rec(e[2]) and all(rec(a) for a in e[3]) and all(rec(v) for _, v in e[4])
+        if k in ("test", "cond", "dict"):
+            return False
+        return all(rec(x) for x in e[1:] if isinstance(x, tuple))
+    return all(rec(e) for e in es)
+
+
 def _statements(items, pat, split_concat=False, tree=None, rel=None):
     """Every place inside `items` (descending into loops) where the text matches `pat` (holes are the pattern's groups), with the hole
     expressions resolved to what they stand for: `{% set %}` bindings substituted, and -- so that a flat loop with index arithmetic
@@ -379,7 +608,7 @@ def _statements(items, pat, split_concat=False, tree=None, rel=None):
             e = J.inline_macros(tree, rel, e)
         return J.subst(e, env)
 
-    def rec(its, env, stack):
+    def rec(its, env, stack, conds=()):
         env = dict(env)
         flat = []
         for it in its:
@@ -409,10 +638,10 @@ def _statements(items, pat, split_concat=False, tree=None, rel=None):
                     for t in (tg[1] if tg[0] == "tuple" else ()):
                         if t[0] == "name":
                             e2.pop(t[1], None)
-                rec(it[3], e2, stack + ((it, seq),))
+                rec(it[3], e2, stack + ((it, seq),), conds)
             elif it[0] == "if":
-                rec(it[2], env, stack)
-                rec(it[3], env, stack)
+                rec(it[2], env, stack, conds + ((val(it[1], env), True),))
+                rec(it[3], env, stack, conds + ((val(it[1], env), False),))
             elif it[0] == "text":
                 flat.append(it)
             elif it[0] == "out":
@@ -424,6 +653,8 @@ def _statements(items, pat, split_concat=False, tree=None, rel=None):
         txt = "".join(x[1] if x[0] == "text" else f"\x00{i}\x00" for i, x in enumerate(flat))
         for mm in re.finditer(pat, txt):
             found.append((tuple(flat[int(g)][1] for g in mm.groups()), stack, flat[int(mm.group(1))][2]))
+            under.append(conds)
+    under = _statements.under = []          # per statement found: the undecided {% if %} tests (test, arm) it sits under
     rec(items, {}, ())
     return found
 
@@ -447,6 +678,47 @@ FACTOR = ("attr", ("name", "renorm"), "factor")
 SPECIES_T = ("attr", ("name", "network"), "species")
 
 
+def _r2_every_entry(ctx, label, rel, line, conds):
+    """InitRenorm assigns EVERY entry of the matrix -- or, when it leaves some out (`{% if term != "0.0" %}`), the matrix it is handed is
+    created zeroed by that very call of Renorm.  A matrix that lives longer than one call still holds the in-place LU factors of the
+    previous solve wherever InitRenorm does not write."""
+    key = f"{label}:InitRenorm:every entry"
+    if not conds:
+        ctx.ok("R2", key, (rel, line), "the assignment is unconditional: every entry is written on every call")
+        return
+    main = CV_MAIN if label == "cvode" else OD_MAIN
+    sk = Skel(J.flatten(ctx.tree, main, {"general.method": "dense"} if label == "cvode" else {}))
+    fs = sk.func("Naunet::Renorm")
+    shown = "; ".join(("" if arm else "not ") + J.show(t)[:60] for t, arm in conds)
+    if not fs:
+        ctx.unrec("R2", key, (rel, line), f"entries are written under `{shown}` and Naunet::Renorm was not found")
+        return
+    body = sk.plain(fs[0].body)
+    mi = re.search(r"\bInitRenorm\s*\(\s*\w+\s*,\s*(\w+)\s*\)", body)
+    if not mi:
+        ctx.unrec("R2", key, (rel, line), f"entries are written under `{shown}` and the call InitRenorm(ab, <matrix>) was not found in Naunet::Renorm")
+        return
+    A = mi.group(1)
+    # a zeroed matrix created by this call: a local declaration at the top level of the function body, before InitRenorm
+    head = body[:mi.start()]
+    depth0 = ""
+    d = 0
+    for ch in head:
+        if ch == "{":
+            d += 1
+        elif ch == "}":
+            d -= 1
+        elif d <= 1:
+            depth0 += ch
+    fresh = re.search(rf"\bSUNMatrix\s+{A}\s*=\s*SUNDenseMatrix\s*\(", depth0) if label == "cvode" else \
+        re.search(rf"\b{A}\s*(?:=\s*(?:boost::numeric::ublas::)?zero_matrix|\.clear\s*\(\s*\))", depth0)
+    ctx.check(bool(fresh), "R2", key, (rel, line),
+              f"entries are written only under `{shown}`, and Renorm hands InitRenorm a matrix it has just created zeroed" if fresh else
+              f"InitRenorm writes an entry only under `{shown}`, and the matrix `{A}` Renorm hands it is not created zeroed by that call (it outlives the call, or is never "
+              "cleared): the entries left out keep whatever the previous in-place factorisation stored there, and from the second call on Renorm solves with a wrong matrix",
+              expected="an unconditional assignment of every entry, or a matrix created zeroed inside Renorm before InitRenorm", found=f"{shown}; InitRenorm(.., {A})")
+
+
 def _r2_template(ctx, label, rel, pat):
     ctx.saw(rel)
     items = J.flatten(ctx.tree, rel, {})
@@ -457,6 +729,7 @@ def _r2_template(ctx, label, rel, pat):
         ctx.unrec("R2", key, (rel, 0), f"expected one assignment `A(row, col) = term` inside the loop(s) of InitRenorm, found {len(sts)}")
     else:
         (row, col, val), stack, line = sts[0]
+        _r2_every_entry(ctx, label, rel, line, _statements.under[0])
         n = _norm(("filter", "length", ELEMIDX, (), ()))
         idx = [("attr", ("name", f"loop@{k + 1}"), "index0") for k in range(len(stack))]
         seqs = [_norm(sq) for _, sq in stack]
@@ -482,12 +755,12 @@ def _r2_template(ctx, label, rel, pat):
                       + "; ".join(J.show(sq)[:80] for sq in seqs))
             filtered = [None]
         if not filtered:
-            ctx.check(row == want_row, "R2", f"{key}:row", (rel, line), "row macro = IDX_ELEM_ name of network.elements number (flat index / nelem)|int -- the row the entry was computed for",
-                      expected=J.show(want_row)[:160], found=J.show(row)[:160])
-            ctx.check(col == want_col, "R2", f"{key}:col", (rel, line), "column macro = IDX_ELEM_ name of network.elements number (flat index % nelem) -- the column the entry was computed for",
-                      expected=J.show(want_col)[:160], found=J.show(col)[:160])
-            ctx.check(base == want_val and all(f[0] == "stmwrap" for f in fs), "R2", f"{key}:value", (rel, line), "the assigned value is entry row*nelem + col of renorm.matrix (whitespace filters only)",
-                      expected=J.show(want_val)[:160], found=J.show(val)[:160])
+            _verdict(ctx, row == want_row, _tunderstood(row), "R2", f"{key}:row", (rel, line), "row macro = IDX_ELEM_ name of network.elements number (flat index / nelem)|int -- the row the entry was computed for",
+                     expected=J.show(want_row)[:160], found=J.show(row)[:160])
+            _verdict(ctx, col == want_col, _tunderstood(col), "R2", f"{key}:col", (rel, line), "column macro = IDX_ELEM_ name of network.elements number (flat index % nelem) -- the column the entry was computed for",
+                     expected=J.show(want_col)[:160], found=J.show(col)[:160])
+            _verdict(ctx, base == want_val and all(f[0] == "stmwrap" for f in fs), _tunderstood(_norm(val)), "R2", f"{key}:value", (rel, line), "the assigned value is entry row*nelem + col of renorm.matrix (whitespace filters only)",
+                     expected=J.show(want_val)[:160], found=J.show(val)[:160])
     # RenormAbundance
     key = f"{label}:RenormAbundance"
     sts = _statements(_top_items(sk, "RenormAbundance"), r"ab\s*\[\s*\x00(\d+)\x00\s*\]\s*=\s*ab\s*\[\s*\x00(\d+)\x00\s*\]\s*\*\s*\(\s*\x00(\d+)\x00\s*\)\s*;", split_concat=True, tree=ctx.tree, rel=rel)
@@ -506,10 +779,10 @@ def _r2_template(ctx, label, rel, pat):
         ctx.unrec("R2", key, (rel, line), f"RenormAbundance iterates {J.show(seq)[:100]}, not the species / the factors (or both zipped)")
         return
     plain = it[7] is None and all(x in (SPECIES_T, FACTOR) for x in parts)
-    ctx.check(plain and a == want_idx and b == want_idx and f == want_f, "R2", key, (rel, line),
-              "ab[IDX_<alias of species n>] is multiplied by factor n, for every species (one unfiltered pass over the species and their factors)",
-              expected=f"ab[{J.show(want_idx)}] *= ({J.show(want_f)}) over zip(network.species, renorm.factor)",
-              found=f"ab[{J.show(a)}] = ab[{J.show(b)}] * ({J.show(f)}) over {J.show(seq)[:100]}")
+    _verdict(ctx, plain and a == want_idx and b == want_idx and f == want_f, _tunderstood(a, b, f, _norm(seq)) and (it[7] is None or _tunderstood(it[7])), "R2", key, (rel, line),
+             "ab[IDX_<alias of species n>] is multiplied by factor n, for every species (one unfiltered pass over the species and their factors)",
+             expected=f"ab[{J.show(want_idx)}] *= ({J.show(want_f)}) over zip(network.species, renorm.factor)",
+             found=f"ab[{J.show(a)}] = ab[{J.show(b)}] * ({J.show(f)}) over {J.show(seq)[:100]}")
 
 
 def _order(body, pats):
@@ -529,22 +802,30 @@ def _r3(ctx):
         ctx.missing("R3", "cvode:Naunet::Renorm", (CV_MAIN, 0), "Naunet::Renorm not found")
     else:
         body = sk.plain(fs[0].body)
-        pos = _order(body, [r"\bInitRenorm\s*\(\s*ab\s*,\s*A\s*\)", r"\bSUNLinSolSetup\s*\(", r"\bSUNLinSolSolve\s*\(", r"\bRenormAbundance\s*\("])
-        ctx.check(all(p >= 0 for p in pos) and pos == sorted(pos), "R3", "cvode:Renorm:order", (CV_MAIN, 0),
-                  "InitRenorm(ab, A) -> SUNLinSolSetup -> SUNLinSolSolve -> RenormAbundance", found=str(pos))
+        mi = re.search(r"\bInitRenorm\s*\(\s*ab\s*,\s*(\w+)\s*\)", body)
+        Amat = mi.group(1) if mi else "A"            # the matrix by role: the one InitRenorm fills
+        pos = _order(body, [r"\bInitRenorm\s*\(\s*ab\s*,\s*\w+\s*\)", rf"\bSUNLinSolSetup\s*\(\s*\w+\s*,\s*{Amat}\s*\)", r"\bSUNLinSolSolve\s*\(", r"\bRenormAbundance\s*\("])
+        # understood and wrong: a required call is absent from the function, or all four are there in another order; a call that is there
+        # with other arguments than the ones read here is not recognised
+        called = [bool(re.search(rf"\b{nm}\s*\(", body)) for nm in ("InitRenorm", "SUNLinSolSetup", "SUNLinSolSolve", "RenormAbundance")]
+        _verdict(ctx, all(p >= 0 for p in pos) and pos == sorted(pos), not all(called) or all(p >= 0 for p in pos), "R3", "cvode:Renorm:order", (CV_MAIN, 0),
+                 "InitRenorm(ab, A) -> SUNLinSolSetup -> SUNLinSolSolve -> RenormAbundance", found=str(pos))
         m = re.search(r"SUNLinSolSolve\s*\(\s*(\w+)\s*,\s*(\w+)\s*,\s*(\w+)\s*,\s*(\w+)\s*,", body)
-        decl = dict((mm.group(1), mm.group(2)) for mm in re.finditer(r"N_Vector\s+(\w+)\s*=\s*([^;]+);", body))
+        decl = dict((mm.group(1), mm.group(2)) for mm in re.finditer(r"(?:N_Vector\s+|[;{}]\s*)(\w+)\s*=\s*(N_V[^;]+);", body))
         ok = False
         found = ""
         if m:
             ls, A, x, b = m.groups()
             found = f"SUNLinSolSolve({ls}, {A}, {x}, {b}, ..); {x} = {decl.get(x)}; {b} = {decl.get(b)}"
-            ok = A == "A" and x != b and re.match(r"N_VNew_Serial\s*\(\s*NELEMENTS", decl.get(x, "")) is not None and \
+            ok = A == Amat and x != b and re.match(r"N_VNew_Serial\s*\(\s*NELEMENTS", decl.get(x, "")) is not None and \
                 re.match(r"N_VMake_Serial\s*\(\s*NELEMENTS\s*,\s*ab_ref_\s*,", decl.get(b, "")) is not None
             rp = re.search(r"(\w+)\s*=\s*N_VGetArrayPointer\s*\(\s*(\w+)\s*\)", body)
             ra = re.search(r"RenormAbundance\s*\(\s*(\w+)\s*,\s*(\w+)\s*\)", body)
             ok = ok and bool(rp) and bool(ra) and rp.group(2) == x and ra.group(1) == rp.group(1) and ra.group(2) == "ab"
-        ctx.check(ok, "R3", "cvode:Renorm:solve", (CV_MAIN, 0),
+        # understood and wrong: the solve call and both vector declarations were read and say something else (solution written over the
+        # right-hand side, a vector that does not wrap ab_ref_, RenormAbundance fed another pointer); a call that could not be read is not
+        sure = bool(m) and (m.group(3) == m.group(4) or (m.group(3) in decl and m.group(4) in decl and bool(re.search(r"RenormAbundance\s*\(\s*\w+\s*,\s*\w+\s*\)", body))))
+        _verdict(ctx, ok, sure, "R3", "cvode:Renorm:solve", (CV_MAIN, 0),
                   "A r = b with b wrapping ab_ref_ and r a separate fresh vector (the stored reference is never overwritten); RenormAbundance gets r and ab",
                   expected="SUNLinSolSolve(LS, A, r, b, 0.0) with r = N_VNew_Serial(NELEMENTS, ..), b = N_VMake_Serial(NELEMENTS, ab_ref_, ..)", found=found)
     # odeint
@@ -556,10 +837,12 @@ def _r3(ctx):
     else:
         body = sk.plain(fs[0].body)
         pos = _order(body, [r"rptr\s*\[\s*i\s*\]\s*=\s*ab_ref_\s*\[\s*i\s*\]", r"\bInitRenorm\s*\(\s*ab\s*,\s*A\s*\)", r"\blu_factorize\s*\(\s*A\s*,", r"\blu_substitute\s*\(\s*A\s*,\s*\w+\s*,\s*rptr\s*\)", r"\bRenormAbundance\s*\(\s*rptr\s*,\s*ab\s*\)"])
-        ctx.check(all(p >= 0 for p in pos) and pos == sorted(pos), "R3", "odeint:Renorm:order", (OD_MAIN, 0),
-                  "rptr := copy of ab_ref_ -> InitRenorm(ab, A) -> lu_factorize(A) -> lu_substitute(A, pm, rptr) -> RenormAbundance(rptr, ab)", found=str(pos))
-        ctx.check(bool(re.search(r"vector_type\s+rptr\s*\(\s*NELEMENTS\s*\)", body)) and bool(re.search(r"for\s*\(\s*int\s+i\s*=\s*0\s*;\s*i\s*<\s*NELEMENTS\s*;", body)),
-                  "R3", "odeint:Renorm:copy", (OD_MAIN, 0), "the right-hand side is a local copy of all NELEMENTS reference ratios")
+        called = [bool(re.search(rf"\b{nm}\s*\(", body)) for nm in ("InitRenorm", "lu_factorize", "lu_substitute", "RenormAbundance")]
+        _verdict(ctx, all(p >= 0 for p in pos) and pos == sorted(pos), not all(called) or all(p >= 0 for p in pos), "R3", "odeint:Renorm:order", (OD_MAIN, 0),
+                 "rptr := copy of ab_ref_ -> InitRenorm(ab, A) -> lu_factorize(A) -> lu_substitute(A, pm, rptr) -> RenormAbundance(rptr, ab)", found=str(pos))
+        copy_ok = bool(re.search(r"vector_type\s+rptr\s*\(\s*NELEMENTS\s*\)", body)) and bool(re.search(r"for\s*\(\s*int\s+i\s*=\s*0\s*;\s*i\s*<\s*NELEMENTS\s*;", body))
+        # (a copy spelled another way -- std::copy, a constructor from a range -- is not read here)
+        _verdict(ctx, copy_ok, "ab_ref_" not in body, "R3", "odeint:Renorm:copy", (OD_MAIN, 0), "the right-hand side is a local copy of all NELEMENTS reference ratios", found=body[:120])
     # no shortcut: a successful return always comes after the abundances were rescaled (an "already conserved" test with an
     # absolute tolerance leaves trace elements off by factors)
     for label, rel, cfg in (("cvode", CV_MAIN, {"general.method": "dense"}), ("odeint", OD_MAIN, {})):
@@ -585,7 +868,7 @@ def _r3(ctx):
         elems = set(re.findall(r"IDX_ELEM_\w+", raw))
         body = re.sub(r"\s+", "", raw)
         ok = "returnGetElementAbund(y,IDX_ELEM_H);" in body and elems == {"IDX_ELEM_H"} and body.count("GetElementAbund(") == 1
-        ctx.check(ok, "R3", "GetHNuclei = element H", (PHYS_, 0),
+        _verdict(ctx, ok, bool(elems - {"IDX_ELEM_H"}) or body.count("GetElementAbund(") > 1 or not elems, "R3", "GetHNuclei = element H", (PHYS_, 0),
                   "GetHNuclei(y) is GetElementAbund(y, IDX_ELEM_H): the basis InitRenorm divides by is the one SetReferenceAbund stores ratios against" if ok else
                   f"GetHNuclei is not the abundance of element H alone (elements used: {sorted(elems)}): InitRenorm divides by it while SetReferenceAbund(ref, 0) stores ref[i]/ref[IDX_ELEM_H] -- "
                   "the two bases differ and Renorm is no longer the identity on conserving abundances",
@@ -599,7 +882,11 @@ def _r3(ctx):
             continue
         body = re.sub(r"\s+", "", sk.plain(fs[0].body))
         ok = "ab_ref_[i]=ref[i]/ref[IDX_ELEM_H];" in body and "ab_ref_[i]=GetElementAbund(ref,i)/Hnuclei;" in body and "Hnuclei=GetHNuclei(ref);" in body
-        ctx.check(ok, "R3", f"{label}:SetReferenceAbund", (rel, 0), "reference ratios are stored relative to hydrogen nuclei (ref[i]/ref[IDX_ELEM_H] or GetElementAbund(ref,i)/GetHNuclei(ref))")
+        # understood and wrong: a store into ab_ref_[i] of the two expected right-hand sides without its divisor
+        stores = re.findall(r"ab_ref_\[i\]=([^;]+);", body)
+        sure = any(rhs in ("ref[i]", "GetElementAbund(ref,i)") for rhs in stores)
+        _verdict(ctx, ok, sure, "R3", f"{label}:SetReferenceAbund", (rel, 0), "reference ratios are stored relative to hydrogen nuclei (ref[i]/ref[IDX_ELEM_H] or GetElementAbund(ref,i)/GetHNuclei(ref))",
+                 found="; ".join(stores)[:160])
 
 
 MUTANTS = [
@@ -638,6 +925,21 @@ MUTANTS = [
         {"file": FILE, "old": "class TemplateLoader:\n", "new": "_Elem = namedtuple(\"_Elem\", \"label atom\")\n\n\nclass TemplateLoader:\n"},
         {"file": FILE, "old": "        matrix = []\n        for iele, einame in enumerate(elemnames):\n            for jele, ejname in enumerate(elemnames):\n                terms = [\"0.0\"]\n                for ispec, spec in enumerate(species):\n                    ci = spec.element_count.get(einame, 0)\n                    cj = spec.element_count.get(ejname, 0)\n                    if not spec.is_electron and ci and cj:\n                        terms.append(\n                            f\"{(ci * cj * elements[jele].A)} * ab[IDX_{spec.alias}] / {spec.A} / Hnuclei\"\n                        )\n                matrix.append(\" + \".join(terms))\n", "new": "        refs = [_Elem(next(iter(e.element_count)), e) for e in elements]\n        matrix = []\n        for ri in refs:\n            for rj in refs:\n                terms = [\"0.0\"]\n                for spec in species:\n                    ci = spec.element_count.get(ri.label, 0)\n                    cj = spec.element_count.get(rj.label, 0)\n                    if not spec.is_electron and ci and cj:\n                        terms.append(f\"{(ci * cj * ri.atom.A)} * ab[IDX_{spec.alias}] / {spec.A} / Hnuclei\")\n                matrix.append(\" + \".join(terms))\n"}], "rules": ["R1"]},
     {"name": "renorm-content-keywords-swapped", "file": FILE, "old": "        return self.RenormContent(renorm, matrix)", "new": "        return self.RenormContent(matrix=renorm, factor=matrix)", "rules": ["R1"]},
+    # hardening round 6 (wave 3): loops by position, product(.., repeat=2), sums reworked by helpers, conditional writes, Species.reset()
+    {"name": "position-loops-row-mass", "edits": [
+        {"file": FILE, "old": "        matrix = []\n        for iele, einame in enumerate(elemnames):\n            for jele, ejname in enumerate(elemnames):\n                terms = [\"0.0\"]\n", "new": "        matrix = []\n        nel = len(elemnames)\n        for iele in range(nel):\n            for jele in range(nel):\n                einame, ejname = elemnames[iele], elemnames[jele]\n                terms = [\"0.0\"]\n"},
+        {"file": FILE, "old": "f\"{(ci * cj * elements[jele].A)} * ab[IDX_{spec.alias}]", "new": "f\"{(ci * cj * elements[iele].A)} * ab[IDX_{spec.alias}]"}], "rules": ["R1"]},
+    {"name": "factor-clamped-by-helper", "edits": [
+        {"file": FILE, "old": "    def _prepare_renorm_content(self, netinfo: NetworkInfo) -> RenormContent:\n", "new": "    @staticmethod\n    def _bounded(expr):\n        return f\"fmin({expr}, 10.0)\" if expr else expr\n\n    def _prepare_renorm_content(self, netinfo: NetworkInfo) -> RenormContent:\n"},
+        {"file": FILE, "old": 'renorm.append(1.0 if spec.is_electron else " + ".join(factor))', "new": 'renorm.append(1.0 if spec.is_electron else self._bounded(" + ".join(factor)))'}], "rules": ["R1"]},
+    {"name": "matrix-sum-edited-as-text", "file": FILE, "old": '                matrix.append(" + ".join(terms))', "new": '                matrix.append(" + ".join(terms).replace("0.0 + ", "", 1))', "rules": ["R1"]},
+    {"name": "odeint-initrenorm-skips-zero-entries", "file": OD_RENORM, "old": "    A({{ elemidxnames[i] }}, {{ elemidxnames[j] }}) = {{ term | stmwrap(80, 32) }};\n", "new": "    {% if term != \"0.0\" -%}\n    A({{ elemidxnames[i] }}, {{ elemidxnames[j] }}) = {{ term | stmwrap(80, 32) }};\n    {% endif -%}\n", "rules": ["R2"]},
+    {"name": "cvode-skips-zero-entries-of-a-kept-matrix", "edits": [
+        {"file": CV_RENORM, "old": "    IJth(A, {{ elemidxnames[i] }}, {{ elemidxnames[j] }}) = {{ term | stmwrap(80, 36) }};\n", "new": "    {% if term != \"0.0\" -%}\n    IJth(A, {{ elemidxnames[i] }}, {{ elemidxnames[j] }}) = {{ term | stmwrap(80, 36) }};\n    {% endif -%}\n"},
+        {"file": CV_MAIN, "old": "    SUNMatrix A = SUNDenseMatrix(NELEMENTS, NELEMENTS, sunctx);\n\n    N_VConst(0.0, r);", "new": "    static SUNMatrix A = NULL;\n    if (A == NULL) {\n        A = SUNDenseMatrix(NELEMENTS, NELEMENTS, sunctx);\n    }\n\n    N_VConst(0.0, r);"}], "rules": ["R2"]},
+    {"name": "network-resets-species-tables", "file": "naunet/network.py", "old": "        if self._known_elements or self._known_pseudo_elements:\n            Species.set_known_elements(self._known_elements)\n            Species.set_known_pseudoelements(self._known_pseudo_elements)\n\n        allowed_species = allowed_species or []",
+     "new": "        if self._known_elements or self._known_pseudo_elements:\n            Species.reset()\n            Species.set_known_elements(self._known_elements)\n            Species.set_known_pseudoelements(self._known_pseudo_elements)\n\n        allowed_species = allowed_species or []", "rules": ["R7"]},
+    {"name": "loader-clears-replacement", "file": FILE, "old": "        renorm = self._prepare_renorm_content(info)\n", "new": "        Species._replacement = {}\n        renorm = self._prepare_renorm_content(info)\n", "rules": ["R7"]},
 ]
 BENIGN = [
     {"name": "coefficient-commuted", "file": FILE, "old": "{(ci * cj * elements[jele].A)}", "new": "{(elements[jele].A * cj * ci)}"},
@@ -664,4 +966,14 @@ BENIGN = [
     {"name": "renorm-content-by-keyword", "file": FILE, "old": "        return self.RenormContent(renorm, matrix)", "new": "        return self.RenormContent(matrix=matrix, factor=renorm)"},
     {"name": "networkinfo-through-locals", "file": FILE, "old": "        info = NetworkInfo(\n            network.elements,\n            network.species,\n", "new": "        atoms = network.elements\n        members = network.species\n        info = NetworkInfo(\n            atoms,\n            members,\n"},
     {"name": "index-name-through-macro", "file": OD_RENORM, "old": "    A({{ elemidxnames[i] }}, {{ elemidxnames[j] }}) =", "new": "    {% macro ename(k) %}{{ elemidxnames[k] }}{% endmacro -%}\n    A({{ ename(i) }}, {{ ename(j) }}) ="},
+    # hardening round 6 (wave 3)
+    {"name": "matrix-by-position-range", "file": FILE, "old": "        matrix = []\n        for iele, einame in enumerate(elemnames):\n            for jele, ejname in enumerate(elemnames):\n                terms = [\"0.0\"]\n", "new": "        matrix = []\n        nel = len(elemnames)\n        for iele in range(nel):\n            for jele in range(nel):\n                einame, ejname = elemnames[iele], elemnames[jele]\n                terms = [\"0.0\"]\n"},
+    {"name": "matrix-product-repeat", "edits": [
+        {"file": FILE, "old": "from importlib.metadata import version\n", "new": "from importlib.metadata import version\nimport itertools\n"},
+        {"file": FILE, "old": "        matrix = []\n        for iele, einame in enumerate(elemnames):\n            for jele, ejname in enumerate(elemnames):\n                terms = [\"0.0\"]\n                for ispec, spec in enumerate(species):\n                    ci = spec.element_count.get(einame, 0)\n                    cj = spec.element_count.get(ejname, 0)\n                    if not spec.is_electron and ci and cj:\n                        terms.append(\n                            f\"{(ci * cj * elements[jele].A)} * ab[IDX_{spec.alias}] / {spec.A} / Hnuclei\"\n                        )\n                matrix.append(\" + \".join(terms))\n", "new": "        pairs = list(zip(elemnames, elements))\n        matrix = []\n        for (einame, eiatom), (ejname, ejatom) in itertools.product(pairs, repeat=2):\n            terms = [\"0.0\"]\n            for spec in species:\n                ci = spec.element_count.get(einame, 0)\n                cj = spec.element_count.get(ejname, 0)\n                if not spec.is_electron and ci and cj:\n                    terms.append(f\"{(ci * cj * ejatom.A)} * ab[IDX_{spec.alias}] / {spec.A} / Hnuclei\")\n            matrix.append(\" + \".join(terms))\n"}]},
+    {"name": "cvode-skips-zero-entries-of-a-fresh-matrix", "file": CV_RENORM, "old": "    IJth(A, {{ elemidxnames[i] }}, {{ elemidxnames[j] }}) = {{ term | stmwrap(80, 36) }};\n", "new": "    {% if term != \"0.0\" -%}\n    IJth(A, {{ elemidxnames[i] }}, {{ elemidxnames[j] }}) = {{ term | stmwrap(80, 36) }};\n    {% endif -%}\n"},
+    {"name": "element-records-by-list-fields", "edits": [
+        {"file": FILE, "old": "from importlib.metadata import version\n", "new": "from importlib.metadata import version\nfrom collections import namedtuple\n"},
+        {"file": FILE, "old": "class TemplateLoader:\n", "new": "_ERef = namedtuple(\"_ERef\", [\"name\", \"atom\"])\n\n\nclass TemplateLoader:\n"},
+        {"file": FILE, "old": "            counts = [spec.element_count.get(ename, 0) for ename in elemnames]\n            factor = [\n                f\"{c * elem.A} * rptr[IDX_ELEM_{ename}] / {spec.A}\"\n                for c, ename, elem in zip(counts, elemnames, elements)\n                if c\n            ]\n", "new": "            refs = [_ERef(nm, at) for nm, at in zip(elemnames, elements)]\n            factor = []\n            for ref in refs:\n                c = spec.element_count.get(ref.name, 0)\n                if c:\n                    factor.append(f\"{c * ref.atom.A} * rptr[IDX_ELEM_{ref.name}] / {spec.A}\")\n"}]},
 ]
